@@ -505,6 +505,17 @@ def legalB (op : Op Float) (pop : FPop) : Witness Float → Bool
 /-- indices of the selected individuals in the source population, read off the tags -/
 def recoverIdx (pop sel : FPop) : List Nat := sel.map fun x => pop.findIdx (fun y => y.tag == x.tag)
 
+/-- positions in `src` of the individuals `xs` (exact copies), every position used at most once:
+the first not yet used position holding an equal individual; `src.length` if there is none. -/
+def recoverUnused (src : FPop) : FPop → List Nat → List Nat
+  | [], used => used.reverse
+  | x :: xs, used =>
+    let cand := (List.range src.length).find? fun i => !used.contains i &&
+      match src[i]? with
+      | some y => indEq y x
+      | none => false
+    recoverUnused src xs (cand.getD src.length :: used)
+
 def minF : List Float → Option Float
   | [] => none
   | x :: xs => match minF xs with
@@ -523,11 +534,46 @@ def chunks {α : Type} (k : Nat) : Nat → List α → List (List α)
 
 def objOf (i : FInd) : Float := i.obj.getD 0
 
+/-- number of members with a strictly lower objective than `w` -/
+def strictlyBetter (cur : FPop) (w : FInd) : Nat := (cur.filter fun c => objOf c < objOf w).length
+
+/-- `w` can win SOME tournament of `size` distinct members: it is a member and at most `len - size`
+members are strictly better (so `size = len` forces a best member; ties are free). -/
+def legalWinner (cur : FPop) (size : Nat) (w : FInd) : Bool :=
+  cur.any (indEq w) && size ≤ cur.length && strictlyBetter cur w ≤ cur.length - size
+
+/-- A competitor list that explains the winner `w` (read off the output only): `w`'s own position
+first, then `size - 1` other positions whose objective is not lower. -/
+def synthCompetitors (cur : FPop) (size : Nat) (w : FInd) : List Nat :=
+  if size = 0 then [] else
+  let i := cur.findIdx (indEq w)
+  let others := (List.range cur.length).filter fun j => j != i &&
+    match cur[j]? with
+    | some c => c.obj.isSome && !(objOf c < objOf w)
+    | none => false
+  i :: others.take (size - 1)
+
+/-- SUS: is `is` the outcome of SOME draw `u ∈ [0,1)`?  The `k`-th point `(u + k)·gaps` must lie in
+`(cum[i_k - 1], cum[i_k]]` (no lower bound for the first, no upper bound for the last position);
+the intersection of the resulting intervals for `u` must be non-empty (tolerance 1e-9). -/
+def susLegal (ws : List Float) (n : Nat) (is : List Nat) : Bool :=
+  let total := sum ws
+  let gaps := total / n.toFloat
+  let cum := (ws.foldl (fun (acc : List Float × Float) w => (acc.1 ++ [acc.2 + w], acc.2 + w)) ([], 0)).1
+  let last := ws.length - 1
+  let bounds := (List.range is.length).zip is |>.map fun (k, i) =>
+    let lo := if i == 0 then (0 : Float) else (cum.getD (i - 1) 0) / gaps - k.toFloat
+    let hi := if i ≥ last then (1 : Float) else (cum.getD i 0) / gaps - k.toFloat
+    (lo, hi)
+  let lo := bounds.foldl (fun a b => if a < b.1 then b.1 else a) 0
+  let hi := bounds.foldl (fun a b => if b.2 < a then b.2 else a) 1
+  is.length == n && is.all (· < ws.length) && lo ≤ hi + 1e-9
+
 /-- Class of the deviation of one observed `execute` from what C11 states; `none` = holds.
-`cur`: source population (evaluated), `rest`: populations below, `stack'`/`res`: observation,
-`w`: the witness reported by the harness (tournament competitor lists). -/
-def violation (op : Op Float) (cur : FPop) (rest : List FPop) (stack' : List FPop) (res : Res)
-    (w : Witness Float) : Option String :=
+`cur`: source population (evaluated), `rest`: populations below, `stack'`/`res`: observation.
+The predicate looks at the observation only — never at replayed generator draws. -/
+def violation (op : Op Float) (cur : FPop) (rest : List FPop) (stack' : List FPop) (res : Res) :
+    Option String :=
   let objs := cur.map objOf
   let len := cur.length
   let hasInf := objs.any fun o => !o.isFinite
@@ -575,26 +621,29 @@ def violation (op : Op Float) (cur : FPop) (rest : List FPop) (stack' : List FPo
           else if !nodupB (recoverIdx cur sel) then some "repeat" else none
         | .tournament n size =>
           if sel.length != n then some "count"
-          else match w with
-            | .sets ss =>
-              if ss.length != n then none else
-              let okRound := (sel.zip ss).all fun (win, s) =>
-                let comp := pick cur s
-                comp.any (indEq win) && comp.all (fun c => objOf win ≤ objOf c) &&
-                  (size != len || objOf win ≤ mn)
-              if okRound then none else some "winner"
-            | _ => none
-        | .deRand y => count (len * (2 * y + 1))
+          else if sel.all (legalWinner cur size) then none else some "winner"
+        | .deRand y =>
+          if sel.length != len * (2 * y + 1) then some "count"
+          else if (chunks (2 * y + 1) len sel).all (fun blk =>
+              let ix := recoverUnused cur blk []
+              ix.all (· < len) && nodupB ix) then none else some "repeat"
         | .deBest y =>
           if sel.length != len * (2 * y + 1) then some "count"
-          else if (chunks (2 * y + 1) len sel).all (fun c => match c with
+          else if !(chunks (2 * y + 1) len sel).all (fun c => match c with
               | b :: _ => objOf b ≤ mn
-              | [] => false) then none else some "wrong-value"
+              | [] => false) then some "wrong-value"
+          else if (chunks (2 * y + 1) len sel).all (fun blk =>
+              let ix := recoverUnused cur blk.tail []
+              ix.all (· < len) && nodupB ix) then none else some "repeat"
         | .deCurrentToBest y =>
           if sel.length != len * (2 * y + 1) then some "count"
-          else if ((chunks (2 * y + 1) len sel).zip cur).all (fun (c, ind) => match c with
+          else if !((chunks (2 * y + 1) len sel).zip cur).all (fun (c, ind) => match c with
               | x :: b :: _ => indEq x ind && objOf b ≤ mn
-              | _ => false) then none else some "wrong-value"
+              | _ => false) then some "wrong-value"
+          else if ((chunks (2 * y + 1) len sel).zip cur).all (fun (blk, ind) =>
+              let remaining := cur.filter (fun j => !sameInd j ind)
+              let ix := recoverUnused remaining (blk.drop 2) []
+              ix.all (· < remaining.length) && nodupB ix) then none else some "repeat"
         | .iwo a b =>
           let counts := cur.map fun x => (sel.filter (indEq x)).length
           let expected := (cur.zip counts).flatMap fun (x, c) => List.replicate c x
@@ -647,13 +696,33 @@ def handleSel (args : List Sexp) (implOut : Sexp) : Option CaseResult := do
     | _ => none
   let cur := stack.headD []
   -- the witness: replayed draws where the harness reports them, otherwise read off the tags
+  -- the witness is read off the OUTPUT (tags); only the SUS draw is taken from the harness' replay,
+  -- and a mismatch there falls back to a legality check (`susLegal`)
+  let okSel : Option FPop := match res, stack' with
+    | .ok, sel :: _ => some sel
+    | _, _ => none
+  let len := cur.length
   let w : Witness Float := match op with
     | .fullyRandom _ | .randomWithoutRepetition _ | .rouletteWheel _ _ | .linearRank _ | .exponentialRank _ _ =>
-      match res, stack' with
-      | .ok, sel :: _ => .idx (recoverIdx cur sel)
-      | _, _ => .idx []
+      .idx ((okSel.map (recoverIdx cur)).getD [])
     | .all | .none | .cloneSingle _ | .iwo _ _ => .none
-    | _ => wRep
+    | .tournament n size =>
+      match okSel with
+      | some sel => .sets (sel.map (synthCompetitors cur size))
+      | none =>
+        -- Err / panic: any legal competitor list; a panic (malformed stream only) is explained by a
+        -- list that contains an unevaluated member
+        let u := cur.findIdx (fun c => c.obj.isNone)
+        let c := if res == .panic && u < len && 0 < size
+          then u :: ((List.range len).filter (· != u)).take (size - 1)
+          else (List.range len).take size
+        .sets (List.replicate n c)
+    | .deRand y => .sets (((okSel.map (chunks (2 * y + 1) len)).getD []).map fun blk => recoverUnused cur blk [])
+    | .deBest y => .sets (((okSel.map (chunks (2 * y + 1) len)).getD []).map fun blk => recoverUnused cur blk.tail [])
+    | .deCurrentToBest y =>
+      .sets ((((okSel.map (chunks (2 * y + 1) len)).getD []).zip cur).map fun (blk, ind) =>
+        recoverUnused (cur.filter (fun j => !sameInd j ind)) (blk.drop 2) [])
+    | .sus _ _ => wRep
   let (mstack, mres) : List FPop × Res :=
     if !ctorOk op then (stack, .ctor)
     else match step floatOps op w stack with
@@ -662,10 +731,21 @@ def handleSel (args : List Sexp) (implOut : Sexp) : Option CaseResult := do
       | (s, .panic) => (s, .panic)
   let model := Sexp.list [.list [.atom "res", mres.toSexp], .list (.atom "stack" :: mstack.map popToSexp)]
   let legal := res != .ok || legalB op cur w
-  let agree := legal && mres == res && stackEq mstack stack'
+  let exact := legal && mres == res && stackEq mstack stack'
+  -- SUS: the replayed draw need not be the one the code used; any draw explaining the output will do
+  let susFallback : Bool := match op, okSel, stack' with
+    | .sus n off, some sel, _ :: below =>
+      mres == .ok && stackEq below stack &&
+      (match proportionalWeights floatOps (cur.map objOf) off false with
+       | .ok (some ws) =>
+         let is := recoverIdx cur sel
+         sel.all (fun x => cur.any (indEq x)) && (is.zip (is.drop 1)).all (fun (a, b) => a ≤ b) && susLegal ws n is
+       | _ => false)
+    | _, _, _ => false
+  let agree := exact || susFallback
   let cls := if inQuantifier op stack then
       match stack with
-      | c :: rest => violation op c rest stack' res w
+      | c :: rest => violation op c rest stack' res
       | [] => none
     else none
   pure { agree, cls, model }
